@@ -51,7 +51,8 @@ struct Inner {   // optional nested critical section on a SECOND resource, taken
     bool w, guard;
     int yields;
 };
-void section(Resource& res, Monitor& mon, int rid, bool w, bool guard, int yields, sim::Barrier* bar, const Inner* inner = nullptr, int residx = 0, bool throws = false) {
+void section(Resource& res, Monitor& mon, int rid, bool w, bool guard, int yields, sim::Barrier* bar, const Inner* inner = nullptr, int residx = 0, bool throws = false,
+             const bool* gate = nullptr) {
     sim::set_tag(rid);
     sim::ev(E_ISSUE, rid, (int)w | (residx << 1));
     auto inside = [&] {
@@ -60,6 +61,11 @@ void section(Resource& res, Monitor& mon, int rid, bool w, bool guard, int yield
         mon.enter(w, rid);
         for (int i = 0; i < yields; i++) sim::yield();
         if (inner) section(*inner->res, *inner->mon, rid + 50, inner->w, inner->guard, inner->yields, nullptr, nullptr, 1);
+        if (gate) {   // convoy scenario: stay inside until the controller opens the gate
+            sim::set_tag(TAG_BARRIER);
+            sim::wait_until([gate] { return *gate; });
+            sim::set_tag(0);
+        }
         if (bar) {
             sim::set_tag(TAG_BARRIER);
             sim::ev(E_BARRIER, rid, 0);
@@ -246,9 +252,63 @@ void run_batch(const Json& prog) {
     idle_probe(*res, mon, IDLE_BASE);
 }
 
+// Convoy: requests arrive one by one in a scripted order, each observed parked before the next is issued, so the arrival
+// order is known exactly and long queues ([W][R][W][W]..., five and more entries, a queue head that has moved) are reached
+// on purpose.  'R'/'W' = a request arrives and parks; '|' = the current holder(s) are released while later arrivals follow.
+void run_convoy(const Json& prog) {
+    auto res = std::make_unique<Resource>();
+    Monitor mon;
+    const std::string script = prog.gets("script", "RW");
+    int yields = (int)prog.get("y", 0);
+    bool gate_open = false;          // only read/written with the baton held
+    std::vector<std::thread> ts;
+    std::vector<int> tids;
+    sim::set_tag(1); sim::ev(E_ISSUE, 1, 1);
+    res->lockWrite();
+    sim::ev(E_ACQ, 1, 1); sim::set_tag(0);
+    mon.enter(true, 1);
+    bool controller_holds = true;
+    int n = 0;
+    for (char c : script) {
+        if (c == '|') {
+            if (controller_holds) {
+                mon.leave(true);
+                sim::ev(E_REL_CALL, 1, 1);
+                res->unlockWrite();
+                sim::ev(E_REL_RET, 1, 1);
+                controller_holds = false;   // whoever is admitted now stays inside (gate) while the next requests arrive
+            }
+            continue;
+        }
+        bool w = c == 'W';
+        int rid = 100 + n;
+        int id = sim::thread_count();
+        bool admitted_already = !controller_holds && n == 0;
+        ts.emplace_back([&, rid, w] { section(*res, mon, rid, w, rid % 2 == 0, yields, nullptr, nullptr, 0, false, &gate_open); });
+        tids.push_back(id);
+        n++;
+        (void)admitted_already;
+        // wait until this request is parked — or has entered and sits at the gate (possible after '|')
+        sim::wait_until([&, id] {
+            auto ti = sim::thread_info(id);
+            return ti.state == sim::T_BLK_COND || ti.state == sim::T_BLK_FUTEX || (ti.state == sim::T_BLK_PRED && ti.tag == TAG_BARRIER);
+        });
+    }
+    if (controller_holds) {
+        mon.leave(true);
+        sim::ev(E_REL_CALL, 1, 1);
+        res->unlockWrite();
+        sim::ev(E_REL_RET, 1, 1);
+    }
+    gate_open = true;
+    for (auto& t : ts) t.join();
+    idle_probe(*res, mon, IDLE_BASE);
+}
+
 std::string classify_deadlock(const Json& prog, const std::vector<sim::ThreadInfo>& ti) {
     bool batch = prog.gets("kind", "random") == "batch";
     if (batch) return "batch-deadlock";
+    if (prog.gets("kind", "random") == "convoy") return "lost-wakeup";
     for (auto& t : ti)
         if ((t.state == sim::T_BLK_COND || t.state == sim::T_BLK_FUTEX) && t.tag > IDLE_BASE) return "idle-probe-park";
     return "lost-wakeup";
@@ -287,10 +347,23 @@ void generate(sim::Rng& g, const std::string& prop, const std::string& tier, Jso
     bool thorough = tier == "thorough";
     program = Json::object();
     bool batch = (prop == "C12") && g.below(2) == 0;
+    bool convoy = !batch && (prop == "C03" || prop == "C12" || prop == "C01") && g.below(prop == "C03" ? 3 : 8) == 0;
     int est = 100;
-    if (batch) {
+    if (convoy) {
+        program.set("kind", "convoy");
+        int len = g.range(2, thorough ? 10 : 8);
+        double pw = prop == "C12" ? 0.15 : 0.5;
+        std::string sc;
+        int bars = 0;
+        for (int i = 0; i < len; i++) {
+            sc += g.chance(pw) ? 'W' : 'R';
+            if (bars < 1 && i + 1 < len && g.below(4) == 0) { sc += '|'; bars++; }
+        }
+        program.set("script", sc).set("y", g.range(0, 1));
+        est = 40 * len;
+    } else if (batch) {
         program.set("kind", "batch");
-        int k = g.range(2, thorough ? 5 : 4);
+        int k = g.range(2, thorough ? 7 : 6);
         bool wf = g.below(5) != 0;
         bool mid = wf && g.below(2) == 0;
         program.set("k", k).set("writer_first", (int)wf).set("mid_writer", (int)mid).set("m", mid ? g.range(0, 3) : 0).set("y", g.range(0, 2));
@@ -339,16 +412,18 @@ void execute(const Json& program, const sim::Config& cfg, const std::string& pro
     sim::run(cfg, [&] {
         try {
             if (batch) run_batch(program);
-        else run_random(program);
+            else if (program.gets("kind", "random") == "convoy") run_convoy(program);
+            else run_random(program);
         } catch (const std::exception& e) {  // valid use of the API must not throw: an escaping exception is an outcome to report, not a harness error
             sim::violation("unexpected-exception", std::string("exception escaped from tulz under valid use: ") + e.what());
         }
     });
     analyse(prop);
-    g_extra[batch ? "runs_batch_scenario" : "runs_random_program"]++;
+    g_extra[batch ? "runs_batch_scenario" : program.gets("kind", "random") == "convoy" ? "runs_convoy_scenario" : "runs_random_program"]++;
 }
 
 std::string describe(const Json& p) {
+    if (p.gets("kind", "random") == "convoy") return "convoy behind a writer, arrivals in order: " + p.gets("script", "") + (p.get("y", 0) ? " (y1)" : "");
     if (p.gets("kind", "random") == "batch") {
         char b[160];
         snprintf(b, sizeof b, "batch: %s%d readers rendezvous%s%s", p.get("writer_first", 1) ? "controller holds write lock, " : "no writer, ", (int)p.get("k", 2),
@@ -374,6 +449,13 @@ std::string describe(const Json& p) {
 
 std::vector<Json> shrink(const Json& p) {
     std::vector<Json> out;
+    if (p.gets("kind", "random") == "convoy") {
+        std::string sc = p.gets("script", "");
+        for (size_t i = 0; i < sc.size(); i++) { Json c = p; std::string t = sc; t.erase(i, 1); if (!t.empty()) { c.set("script", t); out.push_back(c); } }
+        for (size_t i = 0; i < sc.size(); i++) if (sc[i] == 'W') { Json c = p; std::string t = sc; t[i] = 'R'; c.set("script", t); out.push_back(c); }
+        if (p.get("y", 0)) { Json c = p; c.set("y", 0); out.push_back(c); }
+        return out;
+    }
     if (p.gets("kind", "random") == "batch") {
         auto with = [&](const char* k, int64_t v) { Json c = p; c.set(k, (int64_t)v); out.push_back(c); };
         if (p.get("m", 0) > 0) with("m", p.get("m", 0) - 1);
